@@ -630,6 +630,7 @@ func famTyped(dir string, seed int64, tier string) {
 	typedDualHook(repU)
 	typedNilHookInInterface(repM)
 	typedDeprecationMemo(repU)
+	typedAPI(repM, repU, wM, wU, r, thorough)
 	typedMore(dir, seed, tier, repU, wU)
 	typedTargeted(repU, wU, r)
 	typedEvolution(dir, seed, tier, repM, repU, wM, wU)
